@@ -246,6 +246,7 @@ PERTURB = {
     "t0_time": lambda kw, nm, U: kw.update(start_time=STime(nm.real("p_t0", 77), "mjd", 3)),
     "t0_number": lambda kw, nm, U: kw.update(start_time=nm.real("p_x", 59000)),
     "t0_array": lambda kw, nm, U: kw.update(start_time=STime(sym_array("p_tarr", (2,), "float64", nm=nm))),
+    "t0_array1": lambda kw, nm, U: kw.update(start_time=STime(sym_array("p_tarr1", (1,), "float64", nm=nm))),   # one element is still not a scalar
     "t0_quantity": lambda kw, nm, U: kw.update(start_time=Qty(nm.real("p_x", 3), TIME_DIM, U["s"])),
     "meta_dict": lambda kw, nm, U: kw.update(meta={"a": 1, "b": "x"}),
     "meta_pairs": lambda kw, nm, U: kw.update(meta=[("a", 1)]),
@@ -304,6 +305,9 @@ def inst_ctor(cls):
             continue
         out.append(mk(dv, "none"))
     out.append(mk("ok", "none", "dask"))
+    # Dask data that needs the dtype coercion of the constructor: the cast must stay lazy (C09)
+    for dv in ("float32", "float64", "int64"):
+        out.append(mk(dv, "none", "dask"))
     for pv in PERTURB:
         if pv == "none":
             continue
